@@ -80,6 +80,8 @@ def run(ctx):
     cdir = os.path.join(C.VERIF, "corpus", PID)
     if os.path.isdir(cdir):
         for name in sorted(os.listdir(cdir)):
+            if not name.endswith(".ops"):
+                continue
             src = os.path.join(cdir, name)
             ops, imp, mod = ctx.path("corpus.ops"), ctx.path("corpus.impl"), ctx.path("corpus.model")
             lines = [l for l in open(src).read().splitlines() if l and not l.startswith("#")]
@@ -96,6 +98,9 @@ def run(ctx):
         hist[k] = hist.get(k, 0) + v
     # API level: create / look up under case variants and path spellings / list / remove
     api_ops = api_h = 0
+    cn, co = A.corpus(ctx, "CfbVerif.Props.C01/C10 (model Dir no longer corresponds to lib.rs/directory.rs)")
+    api_h += cn
+    api_ops += co
     for tag, args in [("names-api", ["--seed", ctx.seed, "--count", 900 if quick else 5000, "--max-ops", 40, "--invalid-names", "--no-meta", "--reopen-pct", 3]),
                       ("perm5", ["--perms", 5, "--seed", ctx.seed, "--sample", 2 if quick else 20])]:
         stat, h2, sample = A.campaign(ctx, args, tag, "CfbVerif.Props.C01/C10 (model Dir no longer corresponds to lib.rs/directory.rs)")
